@@ -66,6 +66,8 @@ class FileSrc:
     def read(self, size):
         self.st.read_index += 1
         self.st.log.append(('start', self.st.read_index))
+        if size == 0:
+            return b''
         if self.pos < len(self.chunks):
             c = self.chunks[self.pos]
             self.pos += 1
@@ -88,6 +90,7 @@ class IterSrc:
 
     def __next__(self):
         if self.pos >= len(self.chunks):
+            self.st.log.append(('exhausted',))
             raise StopIteration
         self.st.read_index += 1
         self.st.log.append(('start', self.st.read_index))
@@ -242,29 +245,48 @@ def record_real(fi, data, read_size, flavour, expected, inject, rnd):
                     except Exception:
                         pass
         insp.eat_chunk = wrapped
+        orig_finish = insp.finish
+
+        def wrapped_finish(insp=insp, orig_finish=orig_finish):
+            st.log.append(('finish', insp.NAME))
+            return orig_finish()
+        insp.finish = wrapped_finish
     got = []
     exc = 'none'
+    zero_after = rnd.randint(1, 3) if (flavour == 'file' and rnd.random() < 0.35) else None
+    extra_eof_read = flavour == 'file' and rnd.random() < 0.35
     try:
         if flavour == 'file':
+            k = 0
             while True:
                 c = w.read(read_size)
                 st.log.append(('end', st.read_index))
                 got.append(c)
+                k += 1
                 if not c:
+                    if extra_eof_read:
+                        # a caller that polls once more at EOF
+                        c = w.read(read_size)
+                        st.log.append(('end', st.read_index))
+                        got.append(c)
                     break
+                if zero_after == k:
+                    # a zero-length read in the middle of the stream
+                    c0 = w.read(0)
+                    st.log.append(('end', st.read_index))
+                    got.append(c0)
         else:
             for c in w:
                 st.log.append(('end', st.read_index))
                 got.append(c)
-            st.log.append(('exhaust',))
     except fi.ImageFormatError:
         exc = 'ImageFormatError'
         st.log.append(('raise', exc))
     except Exception:
         exc = 'inspector_error'
         st.log.append(('raise', exc))
+    st.log.append(('closing',))
     w.close()
-    st.log.append(('close',))
     joined = b''.join(got)
     transparent = joined == data[:len(joined)] and (exc != 'none' or joined == data)
     ev = []
@@ -277,8 +299,10 @@ def record_real(fi, data, read_size, flavour, expected, inject, rnd):
             ev.append({'op': 'end', 'c': e[1], 'i': ''})
         elif e[0] == 'raise':
             ev.append({'op': 'raise', 'c': 0, 'i': e[1]})
-        elif e[0] == 'exhaust':
+        elif e[0] == 'exhausted':
             ev.append({'op': 'exhaust', 'c': 0, 'i': ''})
+        elif e[0] == 'finish':
+            ev.append({'op': 'finish', 'c': 0, 'i': e[1]})
         else:
             ev.append({'op': 'close', 'c': 0, 'i': ''})
     exp_complete, exp_match = first_complete.get(expected, (1000001, True))
